@@ -210,6 +210,9 @@ def similarity_oracle(case, Xs, cycle, winter):
     if cls in ("TsonisClimateNetwork", "CoupledTsonisClimateNetwork"):
         return np.abs(spec.pearson(Y)), 1e-5
     if cls == "SpearmanClimateNetwork":
+        srt = np.sort(Y, axis=0)
+        if Y.shape[0] > 1 and np.min(np.diff(srt, axis=0)) < 1e-9:
+            return None                                      # (near-)ties: ordinal ranks are not defined
         return np.abs(spec.pearson(spec.ordinal_ranks(Y))), 1e-5
     if cls == "PartialCorrelationClimateNetwork":
         C = spec.pearson(Y)
@@ -377,7 +380,7 @@ def gen_sym4(tier, seed, lo, hi):
         if tier == "quick":
             r = k + seed
             yield dict(base, directed=bool((r // 7) % 4 == 0), non_local=bool((r // 15) % 2), init=INITS[r % 15],
-                       ops=[OPS8[(r // 30) % 8], OPS8[(r // 240 + r) % 8]])
+                       ops=[OPS8[(r // 30 + r) % 8]])
         else:
             for a, init in enumerate(INITS):
                 for nl in (False, True):
@@ -389,6 +392,8 @@ def gen_asym3(tier, seed, lo, hi):
     """all 5^6 asymmetric 3x3 matrices over V5, directed"""
     pairs = [(i, j) for i in range(3) for j in range(3) if i != j]
     for k in range(lo, hi):
+        if tier == "quick" and (k + seed) % 2:
+            continue                                          # quick: every second matrix (parity by seed)
         S = np.diag(DIAGS[k % 3][:3])
         kk = k
         for (i, j) in pairs:
@@ -565,7 +570,7 @@ GENS = {"sym4": gen_sym4, "asym3": gen_asym3, "asym4": gen_asym4, "chains": gen_
 def plan(tier):
     """[(generator, total index range, chunk size)]"""
     if tier == "quick":
-        return [("data", 1, 1), ("chains", 8, 1), ("random", 400, 50), ("sym4", 5 ** 6, 1000), ("asym3", 5 ** 6, 2000),
+        return [("data", 1, 1), ("chains", 6, 1), ("random", 400, 50), ("sym4", 5 ** 6, 1000), ("asym3", 5 ** 6, 2000),
                 ("asym4", 4000, 1000)]
     return [("data", 1, 1), ("chains", 48, 1), ("random", 6000, 250), ("sym4", 5 ** 6, 125), ("asym3", 5 ** 6, 1000),
             ("asym4", 3 ** 12, 6561)]
@@ -622,10 +627,10 @@ def main():
     scope = ("ClimateNetwork from explicit similarity matrices on small GeoGrids: all 5^6 symmetric 4x4 matrices over "
              "{-1,-1/2,0,1/2,1} (3 diagonals, 2 grids incl. pole/antimeridian; thresholds {-1/2,0,1/4,1/2,3/4,1}, "
              "densities {0,.1,.25,1/3,.5,2/3,.75,.9,1}, non_local on/off; thorough: every combination, quick: rotating), "
-             "all 5^6 asymmetric 3x3 matrices (directed), asymmetric 4x4 over |v| in {0,1/2,1} with mixed signs "
+             "all 5^6 asymmetric 3x3 matrices (directed; quick: every second), asymmetric 4x4 over |v| in {0,1/2,1} with mixed signs "
              "(directed; all 3^12 in thorough, 4000 sampled in quick), every setter sequence of length <=3 over "
              "{set_threshold 0,.5,.75; set_link_density 0,.4,1; set_non_local T,F} from two initial configurations on "
-             "8 (quick) / 48 (thorough) matrices with ties, negative and asymmetric entries, seeded random matrices "
+             "6 (quick) / 48 (thorough) matrices with ties, negative and asymmetric entries, seeded random matrices "
              "N<=12 (some <=40 in thorough) on clustered irregular grids with threshold sweeps, thresholds equal to "
              "entries and densities k/M, CoupledClimateNetwork, and Tsonis/Spearman/PartialCorrelation/MutualInfo/"
              "Havlin/Hilbert/CoupledTsonis networks on ClimateData.SmallTestData() and synthetic monthly data "
@@ -649,7 +654,10 @@ def main():
         rep.finish()
         return
     jobs = []
+    only = os.environ.get("C09_ONLY")                       # development aid: restrict to one generator
     for name, total, chunk in plan(args.tier):
+        if only and name != only:
+            continue
         for lo in range(0, total, chunk):
             jobs.append((name, args.tier, args.seed, lo, min(total, lo + chunk)))
     import multiprocessing as mp
